@@ -63,7 +63,7 @@ def same_fig(ar, text, x):
 def check(case):
     res = Result()
     rule = case['rule']
-    o = drive.run(case, renders=True)
+    o = drive.run(case, renders=2)
     if common.failed_run(res, case, o, construct_is_violation=False):
         if o.exc is not None and o.stage == 'count':
             res.skipped = 'count-raises:%s' % type(o.exc).__name__
@@ -84,6 +84,16 @@ def check(case):
                                  'cids', 'ecids', 'cdict', 'options') if k not in (o.header_keys or ()))
     if missing:
         res.fail('record-header', 'record-header|missing|' + base, 'Election.record() right after the count lacks %s (the renderings show them)' % missing)
+    # ---------------- clause 0b: rendering is repeatable and leaves the recorded actions alone
+    if o.again is not None:
+        for k in ('report', 'dump', 'json'):
+            if o.again[k] != getattr(o, k):
+                la, lb = getattr(o, k).split('\n'), o.again[k].split('\n')
+                j = next((j for j, (x, y) in enumerate(zip(la, lb)) if x != y), min(len(la), len(lb)))
+                res.fail('rerender', 'rerender|%s|%s' % (k, base), 'the second %s() of the same election differs from the first at line %d: %r vs %r' %
+                         (k, j + 1, lb[j][:120] if j < len(lb) else None, la[j][:120] if j < len(la) else None))
+        if not o.again['actions_untouched']:
+            res.fail('rerender', 'rerender|record|' + base, 'producing the renderings changed the recorded actions')
     method = rec['method']
     wd = set(case.get('withdrawn') or [])
     # ---------------- clause 1
